@@ -26,6 +26,7 @@ ReqOk(r) ==
     /\ o.dialAddr = r.wantAddr
     /\ o.tlsHost = r.wantTLSHost
     /\ o.crlfOnly
+    /\ o.wrapOK                 \* with WrapConn: all I/O through the wrapper, which is also what Dial returns
 
 Ok(r) == CASE r.k = "resp" -> RespOk(r)
            [] r.k = "req" -> ReqOk(r)
